@@ -82,6 +82,25 @@ impl Ker {
             Ker::Rq(k, ..) => call!(k),
         }
     }
+    /// Matrix / &Matrix operands of arbitrary shape: x is an r×c Matrix holding the r·c points in storage
+    /// (row-major) order, likewise y.
+    fn matrix_shaped(&self, x: &[f64], xs: (usize, usize), y: &[f64], ys: (usize, usize), owned: bool) -> Matrix {
+        let mx = Matrix::new(x.to_vec(), xs.0 as i32, xs.1 as i32);
+        let my = Matrix::new(y.to_vec(), ys.0 as i32, ys.1 as i32);
+        macro_rules! call {
+            ($k:expr) => {
+                if owned {
+                    Kernel::<Matrix, Matrix>::forward($k, mx, my)
+                } else {
+                    Kernel::<&Matrix, Matrix>::forward($k, &mx, &my)
+                }
+            };
+        }
+        match self {
+            Ker::Rbf(k, ..) => call!(k),
+            Ker::Rq(k, ..) => call!(k),
+        }
+    }
     /// The mathematical kernel value relative to the variance (harness-side, used only to decide
     /// whether a case is informative — never to judge the library).
     fn ideal(&self, d2: f64) -> f64 {
@@ -352,31 +371,63 @@ fn gram_checks(rep: &mut Report, k: &Ker, rng: &mut Rng, n: usize) {
     rep.check("C20.gram.psd", regime, ok, || head(why));
 }
 
-fn matrix_checks(rep: &mut Report, k: &Ker, rng: &mut Rng, nx: usize, ny: usize, form: usize) {
-    let regime = format!("{}:{}", k.name(), FORMS[form].split('(').next().unwrap());
+/// second point set: near the first one (so that entries are informative)
+fn second_set(rng: &mut Rng, k: &Ker, x: &[f64], ny: usize) -> Vec<f64> {
+    let c = x[rng.usize(0, x.len() - 1)];
+    let s = k.len_scale().min(50.0);
+    (0..ny).map(|_| (c + s * 3.0 * rng.normal()).clamp(-1e3, 1e3)).collect()
+}
+
+fn matrix_checks(rep: &mut Report, k: &Ker, rng: &mut Rng, nx: usize, ny: usize, form: usize, family: &str) {
+    let regime = format!("{}:{}{}", k.name(), FORMS[form].split('(').next().unwrap(), family);
     let x = point_set(rng, nx, k.len_scale());
-    // second set: near the first one (so that entries are informative) or the same set (Gram matrix)
+    // second set: near the first one or the same set (Gram matrix)
     let same = nx == ny && rng.chance(0.5);
-    let y = if same {
-        x.clone()
-    } else {
-        let c = x[rng.usize(0, nx - 1)];
-        let s = k.len_scale().min(50.0);
-        (0..ny).map(|_| (c + s * 3.0 * rng.normal()).clamp(-1e3, 1e3)).collect()
-    };
+    let y = if same { x.clone() } else { second_set(rng, k, &x, ny) };
     rep.case(&regime);
-    rep.seen(&format!("cover:{}:{}", k.name(), FORMS[form]), 1);
-    let head = |obs: Value| json!({"kernel": k.params(), "argument_kind": FORMS[form], "x": jf(&x), "y": jf(&y), "observed": obs});
-    let m = match guard(|| k.matrix(&x, &y, form)) {
+    rep.seen(&format!("cover:{}:{}{}", k.name(), FORMS[form], family), 1);
+    let r = guard(|| k.matrix(&x, &y, form));
+    judge_matrix(rep, k, &regime, json!(FORMS[form]), &x, &y, same, r);
+}
+
+/// A Matrix operand of any shape r×c is the set of its r·c entries in storage order (the matrix forms
+/// flatten their operands): every pair of shapes r, c in 1..6 for the two operands, owned and borrowed.
+fn shape_checks(rep: &mut Report, k: &Ker, rng: &mut Rng, xs: (usize, usize), ys: (usize, usize), owned: bool) {
+    let kind = if owned { "Matrix" } else { "&Matrix" };
+    let two_d = |s: (usize, usize)| s.0 > 1 && s.1 > 1;
+    let class = match (two_d(xs), two_d(ys)) {
+        (true, true) => "both-2-D",
+        (true, false) => "first-2-D",
+        (false, true) => "second-2-D",
+        _ => "row/column",
+    };
+    let regime = format!("{}:{}:shape-r×c:{}", k.name(), kind, class);
+    let (nx, ny) = (xs.0 * xs.1, ys.0 * ys.1);
+    let x = point_set(rng, nx, k.len_scale());
+    let same = nx == ny && rng.chance(0.3);
+    let y = if same { x.clone() } else { second_set(rng, k, &x, ny) };
+    rep.case(&regime);
+    rep.seen(&format!("cover:shape:first={}×{}", xs.0, xs.1), 1);
+    rep.seen(&format!("cover:shape:second={}×{}", ys.0, ys.1), 1);
+    rep.seen(&format!("cover:{}:{}:shape-r×c:{}", k.name(), kind, class), 1);
+    let r = guard(|| k.matrix_shaped(&x, xs, &y, ys, owned));
+    judge_matrix(rep, k, &regime, json!({"kind": kind, "first_shape": [xs.0, xs.1], "second_shape": [ys.0, ys.1]}), &x, &y, same, r);
+}
+
+/// shape rows(x) × rows(y), entries equal to the scalar form, bitwise symmetric on one point set
+fn judge_matrix(rep: &mut Report, k: &Ker, regime: &str, kind: Value, x: &[f64], y: &[f64], same: bool, r: Result<Matrix, String>) {
+    let (nx, ny) = (x.len(), y.len());
+    let head = |obs: Value| json!({"kernel": k.params(), "argument_kind": kind.clone(), "x": jf(x), "y": jf(y), "observed": obs});
+    let m = match r {
         Err(msg) => {
-            rep.check("C20.matrix.no_panic", &regime, false, || head(json!({"panic": msg})));
+            rep.check("C20.matrix.no_panic", regime, false, || head(json!({"panic": msg})));
             return;
         }
         Ok(m) => m,
     };
-    rep.check("C20.matrix.no_panic", &regime, true, || json!(null));
+    rep.check("C20.matrix.no_panic", regime, true, || json!(null));
     let shape_ok = m.nrows == nx && m.ncols == ny && m.data.len() == nx * ny;
-    if !rep.check("C20.matrix.shape", &regime, shape_ok, || head(json!({"shape": [m.nrows, m.ncols], "len": m.data.len(), "expected": [nx, ny]}))) {
+    if !rep.check("C20.matrix.shape", regime, shape_ok, || head(json!({"shape": [m.nrows, m.ncols], "len": m.data.len(), "expected": [nx, ny]}))) {
         return;
     }
     let mut worst = 0.0f64;
@@ -396,26 +447,65 @@ fn matrix_checks(rep: &mut Report, k: &Ker, rng: &mut Rng, nx: usize, ny: usize,
                 worst = q;
                 at = (i, j);
             }
-            
         }
     }
     rep.note_max(&format!("worst_ratio.{}.matrix_vs_scalar", k.name()), worst);
-    rep.distinct(Hasher::new().s("mat").s(&regime).fs(&x).fs(&y).finish(), informative && nx * ny > 1);
-    rep.check("C20.matrix.entries", &regime, worst <= 1.0, || {
+    rep.distinct(Hasher::new().s("mat").s(regime).fs(x).fs(y).finish(), informative && nx * ny > 1);
+    rep.check("C20.matrix.entries", regime, worst <= 1.0, || {
         let (i, j) = at;
         head(json!({"i": i, "j": j, "x_i": x[i], "y_j": y[j], "matrix_form": jnum(m.data[i * ny + j]), "scalar_form": jnum(k.by_value(x[i], y[j])), "err/bound": worst}))
     });
     if same {
         let asym = (0..nx * nx).find(|&q| m.data[q].to_bits() != m.data[(q % nx) * nx + q / nx].to_bits());
-        rep.check("C20.matrix.gram_symmetric", &regime, asym.is_none(), || head(json!({"i": asym.unwrap() / nx, "j": asym.unwrap() % nx, "a": m.data[asym.unwrap()], "b": m.data[(asym.unwrap() % nx) * nx + asym.unwrap() / nx]})));
+        rep.check("C20.matrix.gram_symmetric", regime, asym.is_none(), || head(json!({"i": asym.unwrap() / nx, "j": asym.unwrap() % nx, "a": m.data[asym.unwrap()], "b": m.data[(asym.unwrap() % nx) * nx + asym.unwrap() / nx]})));
+    }
+}
+
+// ---------------------------------------------------------------------------------------------
+// round hyper-parameter values: the values a user types (and an implementation might special-case)
+
+/// class label of a mixture parameter / variance / length scale value
+fn round_class(v: f64) -> &'static str {
+    if v.fract() == 0.0 {
+        "integer"
+    } else if (2.0 * v).fract() == 0.0 {
+        "half-integer"
+    } else if (4.0 * v).fract() == 0.0 {
+        "quarter"
+    } else if ((3.0 * v).round() / 3.0 - v).abs() <= 2.0 * EPS * v {
+        "third"
+    } else {
+        "decimal"
+    }
+}
+/// every j/2 up to 12, sparser half-integers and integers up to the end of the range, quarters, thirds, decimals
+fn round_grid() -> Vec<f64> {
+    let mut g: Vec<f64> = (1..=24).map(|j| j as f64 / 2.0).collect();
+    g.extend([13.5, 15.5, 16.0, 16.5, 20.5, 25.0, 31.5, 32.0, 32.5, 47.5, 50.0, 63.5, 64.0, 64.5, 80.5, 99.0, 99.5]);
+    g.extend([0.25, 0.75, 1.25, 1.75, 2.25, 0.125, 0.375, 0.0625]);
+    g.extend([1.0 / 3.0, 2.0 / 3.0, 4.0 / 3.0, 5.0 / 3.0, 7.0 / 3.0, 10.0 / 3.0]);
+    g.extend([0.02, 0.05, 0.1, 0.2, 0.3, 0.7, 1.1, 2.2, 7.3, 12.7]);
+    g
+}
+
+fn make_round_kernel(rng: &mut Rng, which: usize, i: usize, grid: &[f64]) -> Result<Ker, String> {
+    let pick = |rng: &mut Rng| if rng.chance(0.5) { *rng.choose(grid) } else { rng.log_range(1e-2, 1e2) };
+    let var = pick(rng);
+    let l = pick(rng);
+    // the parameter that is walked through the whole grid: the length scale (RBF) / the mixture parameter (RQ)
+    let walked = grid[(i / 2) % grid.len()];
+    if which == 0 {
+        guard(|| RBFKernel::new(var, walked)).map(|k| Ker::Rbf(k, var, walked))
+    } else {
+        guard(|| RQKernel::new(var, walked, l)).map(|k| Ker::Rq(k, var, walked, l))
     }
 }
 
 pub fn run(cfg: &Cfg, rep: &mut Report) {
-    rep.rule = "per case one kernel (RBF / RQ alternating; variance, length scale, mixture parameter log-uniform in (1e-2,1e2)): 32 scalar pairs in ±1e3 at distances 1e-3..1e2 length scales, one 64-point distance ladder, one Gram matrix of the scalar form on 1..60 points spread over 0.03..30 length scales (grid / uniform / normal clouds, repeated points now and then), and one matrix-form call per argument kind (Vector, &Vector, Matrix n×1 and 1×n, owned and borrowed) on two point sets of independent sizes 1..60. non-trivial = an entry strictly between 0.1% and 99.9% of the variance; distinct by parameters and points".into();
+    rep.rule = "per case one kernel (RBF / RQ alternating; variance, length scale, mixture parameter log-uniform in (1e-2,1e2)): 32 scalar pairs in ±1e3 at distances 1e-3..1e2 length scales, one 64-point distance ladder, one Gram matrix of the scalar form on 1..60 points spread over 0.03..30 length scales (grid / uniform / normal clouds, repeated points now and then), and one matrix-form call per argument kind (Vector, &Vector, Matrix n×1 and 1×n, owned and borrowed) on two point sets of independent sizes 1..60. Matrix-shape family: every pair of operand shapes r×c, r, c in 1..6 (1296 pairs: columns, rows, 1×1 and genuinely 2-D arrays holding r·c points), owned and borrowed, both kernels. round-parameter family: the mixture parameter (RQ) / length scale (RBF) walks a grid of round values (every j/2 up to 12, half-integers and integers up to 99.5, quarters, thirds, decimals), variance and the other parameter round one time in two; scalar pairs, ladder and one matrix-form call per argument kind on 1..12 points. non-trivial = an entry strictly between 0.1% and 99.9% of the variance; distinct by parameters and points".into();
     rep.assume("'positive' is asserted as k >= 0, and k > 0 wherever the exact value exceeds exp(-700): beyond that a correct kernel underflows to zero");
     rep.assume("monotone / bounded carry a 4ε relative slack (powf is accurate but not proven monotone)");
-    rep.assume("a Matrix argument is a point set given as a single column or a single row; general r×c matrices are not in the quantifier");
+    rep.assume("a Matrix argument of shape r×c is the point set of its r·c entries in storage (row-major) order: a single column, a single row or a genuinely 2-D array; the matrix form must have r·c rows (columns) for it and equal the scalar form on the flattened points");
     rep.assume("matrix-form entries may differ from the scalar form by the cancellation error of x²+y²−2xy: relative expm1(32ε(x²+y²)/(2ℓ²)) + 16ε(2+t) (t = exponent for RBF, mixture parameter for RQ)");
     let n_cases = cfg.pick(600, 15_000, 10);
     par_cases(cfg, rep, 1, n_cases, |i, rng, rep| {
@@ -447,10 +537,62 @@ pub fn run(cfg: &Cfg, rep: &mut Report) {
                 }
                 _ => (rng.usize(1, cap), rng.usize(1, cap)),
             };
-            matrix_checks(rep, &k, rng, nx, ny, form);
+            matrix_checks(rep, &k, rng, nx, ny, form, "");
         }
         if i < 4 {
             rep.sample(|| json!({"kernel": k.params(), "k(0,0)": k.by_value(0.0, 0.0), "k(0,1)": k.by_value(0.0, 1.0), "k(0,3)": k.by_value(0.0, 3.0)}));
+        }
+    });
+    // ---- Matrix operands of every shape r×c, r, c in 1..6, for both arguments
+    let smax: usize = if cfg.miri() { 3 } else { 6 };
+    let n_pairs = smax.pow(4);
+    let n_shape = cfg.pick(n_pairs, 4 * n_pairs, 12);
+    par_cases(cfg, rep, 2, n_shape, |i, rng, rep| {
+        // under the reduced workloads a random pair, otherwise the complete enumeration
+        let q = if cfg.lite { rng.usize(0, n_pairs - 1) } else { i % n_pairs };
+        let xs = (q % smax + 1, q / smax % smax + 1);
+        let ys = (q / (smax * smax) % smax + 1, q / (smax * smax * smax) % smax + 1);
+        for which in 0..2 {
+            let k = match make_kernel(rng, which) {
+                Ok(k) => k,
+                Err(msg) => {
+                    rep.check("C20.ctor.accepts_valid", if which == 0 { "rbf" } else { "rq" }, false, || json!({"panic": msg}));
+                    continue;
+                }
+            };
+            for owned in [true, false] {
+                if cfg.lite && owned != (i % 2 == 0) {
+                    continue;
+                }
+                shape_checks(rep, &k, rng, xs, ys, owned);
+            }
+        }
+    });
+    // ---- round hyper-parameter values
+    let grid = round_grid();
+    let grid = &grid;
+    let n_round = cfg.pick(2 * grid.len(), 16 * grid.len(), 8);
+    par_cases(cfg, rep, 3, n_round, |i, rng, rep| {
+        let which = i % 2;
+        let k = match make_round_kernel(rng, which, i, grid) {
+            Ok(k) => k,
+            Err(msg) => {
+                rep.check("C20.ctor.accepts_valid", if which == 0 { "rbf" } else { "rq" }, false, || json!({"panic": msg}));
+                return;
+            }
+        };
+        if let Ker::Rq(_, _, a, _) = &k {
+            rep.seen(&format!("round:rq:alpha:{}", round_class(*a)), 1);
+        }
+        if let Ker::Rbf(_, _, l) = &k {
+            rep.seen(&format!("round:rbf:length_scale:{}", round_class(*l)), 1);
+        }
+        scalar_checks(rep, &k, rng);
+        let cap = if cfg.miri() { 4 } else { 12 };
+        for form in 0..6 {
+            // at least 9 entries two times in three: unrolled element-wise loops have a remainder path
+            let (nx, ny) = if (i / 2 + form) % 3 == 0 { (rng.usize(1, cap), rng.usize(1, cap)) } else { (rng.usize(3, cap), rng.usize(3, cap)) };
+            matrix_checks(rep, &k, rng, nx, ny, form, ":round-params");
         }
     });
     for name in ["rbf", "rq"] {
@@ -460,6 +602,30 @@ pub fn run(cfg: &Cfg, rep: &mut Report) {
         rep.require(&format!("cover:{}:gram-nontrivial", name), 1);
         for f in FORMS {
             rep.require(&format!("cover:{}:{}", name, f), 1);
+        }
+    }
+    for name in ["rbf", "rq"] {
+        for f in FORMS {
+            rep.require(&format!("cover:{}:{}:round-params", name, f), 1);
+        }
+        for kind in ["Matrix", "&Matrix"] {
+            for class in ["both-2-D", "first-2-D", "second-2-D", "row/column"] {
+                if !cfg.lite {
+                    rep.require(&format!("cover:{}:{}:shape-r×c:{}", name, kind, class), 1);
+                }
+            }
+        }
+    }
+    if !cfg.lite {
+        for r in 1..=smax {
+            for c in 1..=smax {
+                rep.require(&format!("cover:shape:first={}×{}", r, c), 1);
+                rep.require(&format!("cover:shape:second={}×{}", r, c), 1);
+            }
+        }
+        for class in ["integer", "half-integer", "quarter", "third", "decimal"] {
+            rep.require(&format!("round:rq:alpha:{}", class), 1);
+            rep.require(&format!("round:rbf:length_scale:{}", class), 1);
         }
     }
 }
